@@ -165,7 +165,12 @@ def gen_value(rng, a, valid=True):
             elif c[0] == 'range':
                 lo, hi = max(lo, c[1]), min(hi, c[2] - 1)
         if not valid:
-            return rng.choice(['x', '', '1x', '99999999999', str(lo - 1), str(hi + 1), '-', '+', '1 2'])
+            bad = ['x', '', '1x', '99999999999', '-', '+', '1 2']
+            if any(c[0] in ('lower', 'range') for c in a.checks):
+                bad.append(str(lo - 1))
+            if any(c[0] in ('upper', 'range') for c in a.checks):
+                bad.append(str(hi + 1))
+            return rng.choice(bad)
         if lo > hi:
             return str(lo)
         pick = rng.below(6)
@@ -269,8 +274,8 @@ def gen_line(rng, args, cons, maxuses=6):
         for r in a.req:
             if r not in ordered:
                 return None
-        if any(m.mand and m not in ordered for m in args):
-            return None
+    if any(m.mand and m not in ordered for m in args):
+        return None
     if rng.chance(1, 2):
         # move flags that nobody refers to and that refer to nobody next to each other (flag groups)
         free = [a for a in ordered if not a.is_value() and not a.req and not a.excl
@@ -498,3 +503,176 @@ def expected_store(args, uses):
             else:
                 out[a.slot] = '[' + ','.join('s' + hx(x) for x in cur) + ']'
     return out
+
+
+# --------------------------------------------------------------------------
+# rule-breaking mutations (C02)
+
+MUTATIONS = ['drop-mandatory', 'duplicate', 'unknown-short', 'unknown-long', 'bad-value', 'boundary-value',
+             'missing-value-end', 'missing-value-mid', 'excluded-after', 'required-missing', 'break-handler-constraint',
+             'too-many-elements', 'too-few-elements', 'ambiguous-abbrev', 'value-for-flag', 'lone-dash']
+
+
+def mutate(rng, kind, args, cons, uses):
+    """returns the argv words of a command line that breaks exactly the named rule, or None when the
+    mutation does not apply to this configuration / line"""
+    uses = [Use(u.arg, list(u.values)) for u in uses]
+    spell_ = lambda us: spell(rng, us, args, True)  # noqa
+    if kind == 'drop-mandatory':
+        cand = [i for i, u in enumerate(uses) if u.arg.mand and not (u.arg.is_vec() and u.arg.init)]
+        if not cand:
+            return None
+        i = rng.choice(cand)
+        a = uses[i].arg
+        # nobody may then complain first about something else: fine, any exception counts
+        del uses[i]
+        return spell_(uses)
+    if kind == 'duplicate':
+        cand = [i for i, u in enumerate(uses) if u.arg.is_value() and not u.arg.is_vec() and not u.arg.card]
+        if not cand:
+            return None
+        i = rng.choice(cand)
+        uses.insert(rng.range(i + 1, len(uses)), Use(uses[i].arg, [gen_value(rng, uses[i].arg)]))
+        return spell_(uses)
+    if kind in ('unknown-short', 'unknown-long'):
+        w = spell_(uses)
+        used_s = {a.short for a in args if a.short}
+        if kind == 'unknown-short':
+            free = [c for c in 'ABCDEFGHJKL' if c not in used_s]
+            word = '-' + rng.choice(free)
+        else:
+            word = '--' + rng.choice(['zeta', 'quux', 'xylophone'])
+        # insert at a word boundary that does not separate a key from its value: only at the very start
+        # or the very end
+        return [word] + w if rng.chance(1, 2) else w + [word]
+    if kind in ('bad-value', 'boundary-value'):
+        cand = [i for i, u in enumerate(uses) if u.arg.is_value() and (u.arg.kind in ('i', 'oi', 'vi') or u.arg.checks)]
+        if not cand:
+            return None
+        i = rng.choice(cand)
+        a = uses[i].arg
+        if kind == 'boundary-value':
+            ck = [c for c in a.checks if c[0] in ('lower', 'upper', 'range')]
+            if not ck:
+                return None
+            c = rng.choice(ck)
+            bad = str(c[1] - 1) if c[0] == 'lower' else str(c[1]) if c[0] == 'upper' else \
+                rng.choice([str(c[1] - 1), str(c[2])])
+        else:
+            bad = gen_value(rng, a, valid=False)
+            if a.kind in ('s', 'vs') and bad == '' and not any(c[0] == 'minlen' for c in a.checks):
+                return None
+            if a.is_vec() and (bad == '' or ' ' in bad):
+                return None
+        j = rng.below(len(uses[i].values))
+        uses[i].values[j] = bad
+        if a.is_vec() and len(uses[i].values) > 1:
+            # keep the element list in one word so that the bad element cannot become a word of its own
+            a_multi, a.multi = a.multi, False
+            w = spell_(uses)
+            a.multi = a_multi
+            return w
+        return spell_(uses)
+    if kind == 'missing-value-end':
+        cand = [a for a in args if a.is_value() and a not in [u.arg for u in uses]]
+        if not cand:
+            return None
+        a = rng.choice(cand)
+        return spell_(uses) + [('-' + a.short) if a.short else ('--' + a.long)]
+    if kind == 'missing-value-mid':
+        cand = [a for a in args if a.is_value() and a not in [u.arg for u in uses]]
+        flags = [u for u in uses if not u.arg.is_value()]
+        if not cand or not flags:
+            return None
+        a = rng.choice(cand)
+        k = uses.index(rng.choice(flags))
+        return spell_(uses[:k]) + [('-' + a.short) if a.short else ('--' + a.long)] + spell_(uses[k:])
+    if kind == 'excluded-after':
+        pairs = [(a, e) for a in args for e in a.excl]
+        if not pairs:
+            return None
+        a, e = rng.choice(pairs)
+        us = [u for u in uses if u.arg is not a and u.arg is not e]
+        mk = lambda x: Use(x, [gen_value(rng, x) for _ in range(1)] if x.is_value() else [])  # noqa
+        return spell_(us + [mk(a), mk(e)])
+    if kind == 'required-missing':
+        cand = [i for i, u in enumerate(uses) if any(r in [x.arg for x in uses] for r in u.arg.req)]
+        if not cand:
+            return None
+        i = rng.choice(cand)
+        r = rng.choice([r for r in uses[i].arg.req if r in [x.arg for x in uses]])
+        if r.mand:
+            return None
+        # the requirement chain may pull in others; removing r is enough to break the rule of uses[i]
+        return spell_([u for u in uses if u.arg is not r])
+    if kind == 'break-handler-constraint':
+        if not cons:
+            return None
+        t, grp = rng.choice(cons)
+        mk = lambda x: Use(x, [gen_value(rng, x)] if x.is_value() else [])  # noqa
+        present = [u.arg for u in uses]
+        if t == 'all_of':
+            inl = [a for a in grp if a in present and not a.mand]
+            if not inl:
+                return None
+            drop = rng.choice(inl)
+            return spell_([u for u in uses if u.arg is not drop])
+        if t == 'one_of' and rng.chance(1, 2):
+            inl = [a for a in grp if a in present and not a.mand]
+            if not inl:
+                return None
+            return spell_([u for u in uses if u.arg not in inl])
+        other = [a for a in grp if a not in present]
+        inl = [a for a in grp if a in present]
+        need = 2 - len(inl)
+        if need <= 0 or len(other) < need:
+            return None
+        rng.shuffle(other)
+        return spell_(uses + [mk(x) for x in other[:need]])
+    if kind in ('too-many-elements', 'too-few-elements'):
+        cand = [i for i, u in enumerate(uses) if u.arg.is_vec() and u.arg.card]
+        if not cand:
+            return None
+        i = rng.choice(cand)
+        a = uses[i].arg
+        c = a.card
+        if kind == 'too-many-elements':
+            limit = c[1] if c[0] in ('max', 'exact') else c[2]
+            want = limit + 1
+        else:
+            if c[0] == 'max':
+                return None
+            want = (c[1] - 1)
+            if want < 1:
+                return None
+        vals = []
+        guard = 0
+        while len(vals) < want and guard < 60:
+            guard += 1
+            v = gen_value(rng, a)
+            if a.uniq and _canon(a, v) in [_canon(a, x) for x in vals] + _init_canon(a):
+                continue
+            vals.append(v)
+        if len(vals) < want:
+            return None
+        uses[i].values = vals
+        return spell_(uses)
+    if kind == 'ambiguous-abbrev':
+        longs = [a.long for a in args if a.long]
+        for n in range(1, 6):
+            for l in longs:
+                p = l[:n]
+                if len(p) >= 2 and p not in longs and sum(1 for x in longs if x.startswith(p)) >= 2:
+                    return spell_(uses) + ['--' + p]
+        return None
+    if kind == 'value-for-flag':
+        fl = [u for u in uses if not u.arg.is_value() and u.arg.long]
+        if not fl or any(a.keyspec() == '-' for a in args):
+            return None
+        # a free value with no multi-value argument before it and no positional argument
+        if any(a.multi for a in args):
+            return None
+        return spell_(uses) + ['stray']
+    if kind == 'lone-dash':
+        return spell_(uses) + ['-']
+    return None
